@@ -1,7 +1,192 @@
+(* C15 -- Boolean rewriting of predicates preserves their truth table.
+   Statements only; every proof is `exact <lemma>` from Proofs/PredProofs.v / Proofs/NormalFormProofs.v.
+
+   PART 1 (new query system): the py_* definitions are REGENERATED from the current bodies of
+   Predicate._impl_and/_impl_or/from_bool/logical_and/logical_or/logical_not (Gen/PredGen.v), so these theorems
+   are re-checked against what the code says now.  v : atom -> tri is an arbitrary KLEENE assignment (TT/FF/UU);
+   Boolean assignments are the special case (see `two_valued`).
+     eval3 v p   = all(any(leaf) for leaf in group) for group in p.operands), in Kleene logic
+     flags_ok    = an identity flag (`a is b` inside _impl_and) is only ever true for equal operands
+   PART 2 (legacy query system): hand model of normalForm.py (Model/NormalForm.v), tied to the code by the
+   correspondence run.  form : bool, true = CONJUNCTIVE. *)
 From Coq Require Import NArith List Bool.
-From V Require Import Base.Tri Model.Pred Gen.PredGen Proofs.PredProofs.
+From V Require Import Base.Tri Model.Pred Model.NormalForm Gen.PredGen Proofs.PredProofs Proofs.NormalFormProofs.
 Import ListNotations.
 
-Theorem const_true : forall v, eval3 v (py_from_bool true) = TT.
-Proof. exact const_true_p. Qed.
+(* ================================= PART 1: Predicate ============================================== *)
+
+(* the constants: () is true, ((),) is false, and from_bool produces exactly them *)
+Theorem const_true : forall v, eval3 v [] = TT.
+Proof. exact eval3_true_p. Qed.
 Print Assumptions const_true.
+
+Theorem const_false : forall v, eval3 v [[]] = FF.
+Proof. exact eval3_false_p. Qed.
+Print Assumptions const_false.
+
+Theorem from_bool_sound : forall v b, eval3 v (py_from_bool b) = tri_of_bool b.
+Proof. exact from_bool_sound_p. Qed.
+Print Assumptions from_bool_sound.
+
+Theorem from_bool_true_shape : py_from_bool true = [].
+Proof. exact from_bool_true_p. Qed.
+Print Assumptions from_bool_true_shape.
+
+Theorem from_bool_false_shape : py_from_bool false = [[]].
+Proof. exact from_bool_false_p. Qed.
+Print Assumptions from_bool_false_shape.
+
+Theorem invert_sound : forall v l, lit_eval v (py_invert l) = tri_not (lit_eval v l).
+Proof. exact invert_sound_p. Qed.
+Print Assumptions invert_sound.
+
+(* the two primitive combinators *)
+Theorem impl_and_sound : forall v same a b, (same = true -> b = a) ->
+  eval3 v (py_impl_and same a b) = tri_and (eval3 v a) (eval3 v b).
+Proof. exact impl_and_sound_p. Qed.
+Print Assumptions impl_and_sound.
+
+Theorem impl_or_sound : forall v a b, eval3 v (py_impl_or a b) = tri_or (eval3 v a) (eval3 v b).
+Proof. exact impl_or_sound_p. Qed.
+Print Assumptions impl_or_sound.
+
+(* p.logical_and(q, r, ...): n-ary, any consistent identity flags, including the collapse to ((),) *)
+Theorem and_sound : forall v self args, flags_ok py_impl_and self args ->
+  eval3 v (py_logical_and self args) = and_all3 (eval3 v self) (map (fun a => eval3 v (snd a)) args).
+Proof. exact logical_and_sound_p. Qed.
+Print Assumptions and_sound.
+
+Theorem and_collapse : forall self args,
+  py_all (py_logical_and self args) = true \/ py_logical_and self args = [[]].
+Proof. exact logical_and_collapsed_p. Qed.
+Print Assumptions and_collapse.
+
+Theorem or_sound : forall v args self,
+  eval3 v (py_logical_or self args) = or_all3 (eval3 v self) (map (eval3 v) args).
+Proof. exact logical_or_sound_p. Qed.
+Print Assumptions or_sound.
+
+Theorem not_sound : forall v self, eval3 v (py_logical_not self) = tri_not (eval3 v self).
+Proof. exact logical_not_sound_p. Qed.
+Print Assumptions not_sound.
+
+(* any formula built from atoms and constants by logical_and / logical_or / logical_not *)
+Theorem build_sound : forall v f, py_form_ok f -> eval3 v (py_build f) = feval3 v f.
+Proof. exact build_sound_p. Qed.
+Print Assumptions build_sound.
+
+Theorem build_sound_distinct_objects : forall v f, no_flags f = true -> eval3 v (py_build f) = feval3 v f.
+Proof. exact build_sound_noflags_p. Qed.
+Print Assumptions build_sound_distinct_objects.
+
+(* two-valued logic is the special case: Boolean atoms give a Boolean value *)
+Theorem two_valued : forall v (p : cnf), (forall a, v a <> UU) -> eval3 v p <> UU.
+Proof. exact eval3_two_valued_p. Qed.
+Print Assumptions two_valued.
+
+(* the hand model used by the correspondence check computes exactly the regenerated definitions *)
+Theorem hand_model_is_generated : forall f, py_build f = build f.
+Proof. exact build_shape_p. Qed.
+Print Assumptions hand_model_is_generated.
+
+(* ================================= PART 2: legacy normal forms ===================================== *)
+
+Theorem wrap_not_sound : forall v w, weval3 v (not_ w) = tri_not (weval3 v w).
+Proof. exact not_sound_p. Qed.
+Print Assumptions wrap_not_sound.
+
+Theorem wrap_of_sound : forall v t, weval3 v (wrap_of t) = leval3 v t.
+Proof. exact wrap_of_sound_p. Qed.
+Print Assumptions wrap_of_sound.
+
+(* whenever normalize returns, for CNF and for DNF: same Kleene truth value ... *)
+Theorem normalize_sound : forall v fuel form w w',
+  normalize fuel form w = Some w' -> weval3 v w' = weval3 v w.
+Proof. exact normalize_sound_p. Qed.
+Print Assumptions normalize_sound.
+
+(* ... and the result satisfies the requested form *)
+Theorem normalize_normal : forall fuel form w w',
+  normalize fuel form w = Some w' -> satisfies form w' = true.
+Proof. exact normalize_normal_p. Qed.
+Print Assumptions normalize_normal.
+
+(* termination, unbounded: for every expression there is enough fuel; hence neither out-of-fuel nor the
+   AssertionError branch of _normalizeDispatchBinary is reachable *)
+Theorem normalize_fuel : forall form w, exists n w', normalize n form w = Some w'.
+Proof. exact normalize_total_p. Qed.
+Print Assumptions normalize_fuel.
+
+Theorem normalize_fuel_monotone : forall n m form w w',
+  n <= m -> normalize n form w = Some w' -> normalize m form w = Some w'.
+Proof. exact normalize_mono. Qed.
+Print Assumptions normalize_fuel_monotone.
+
+Theorem normalize_fixpoint : forall n form w, satisfies form w = true -> normalize (S n) form w = Some w.
+Proof. exact normalize_fixpoint_p. Qed.
+Print Assumptions normalize_fixpoint.
+
+Theorem flatten_sound : forall v op w, fold3 v op (flatten op w) = weval3 v w.
+Proof. exact flatten_sound_p. Qed.
+Print Assumptions flatten_sound.
+
+(* NormalFormExpression.fromTree: the nested node list means what the tree means, has the documented shape
+   (non-empty groups of atoms / negated atoms), and always exists *)
+Theorem fromTree_sound : forall v fuel form t nodes,
+  from_tree fuel form t = Some nodes -> nodes_eval3 v form nodes = leval3 v t.
+Proof. exact from_tree_sound_p. Qed.
+Print Assumptions fromTree_sound.
+
+Theorem fromTree_normal : forall fuel form t nodes,
+  from_tree fuel form t = Some nodes -> nodes_normal nodes = true.
+Proof. exact from_tree_normal_p. Qed.
+Print Assumptions fromTree_normal.
+
+(* toTree rebuilds a tree with the meaning of the node list; together: *)
+Theorem toTree_sound : forall v form nodes t, to_tree form nodes = Some t -> leval3 v t = nodes_eval3 v form nodes.
+Proof. exact to_tree_sound_p. Qed.
+Print Assumptions toTree_sound.
+
+Theorem fromTree_toTree_sound : forall v fuel form t nodes t',
+  from_tree fuel form t = Some nodes -> to_tree form nodes = Some t' -> leval3 v t' = leval3 v t.
+Proof. exact from_to_tree_sound_p. Qed.
+Print Assumptions fromTree_toTree_sound.
+
+Theorem fromTree_toTree_total : forall form t, exists n nodes t',
+  from_tree n form t = Some nodes /\ to_tree form nodes = Some t'.
+Proof. exact from_to_tree_total_p. Qed.
+Print Assumptions fromTree_toTree_total.
+
+Theorem legacy_two_valued : forall v t, (forall a, v a <> UU) -> leval3 v t <> UU.
+Proof. exact leval3_two_valued_p. Qed.
+Print Assumptions legacy_two_valued.
+
+(* ================================= non-vacuity ====================================================== *)
+(* flags_ok is satisfiable with a TRUE identity flag (p.logical_and(p)), and then _impl_and really takes
+   the `a is b` branch *)
+Example flags_ok_with_identity : flags_ok py_impl_and [[Pos 0%N]] [(true, [[Pos 0%N]]); (false, [[Neg 1%N]])]
+  /\ py_logical_and [[Pos 0%N]] [(true, [[Pos 0%N]]); (false, [[Neg 1%N]])] = [[Pos 0%N]; [Neg 1%N]].
+Proof. cbn. repeat split; auto. discriminate. Qed.
+
+Example collapse_happens : py_logical_and [[Pos 0%N]] [(false, [[]])] = [[]].
+Proof. reflexivity. Qed.
+
+Example form_ok_example :
+  py_form_ok (FNot (FAnd false (FAtom 0%N) (FOr (FAtom 1%N) (FNot (FAtom 2%N)))))
+  /\ py_build (FNot (FAnd false (FAtom 0%N) (FOr (FAtom 1%N) (FNot (FAtom 2%N)))))
+     = [[Neg 0%N; Neg 1%N]; [Neg 0%N; Pos 2%N]].
+Proof. cbn. repeat split; auto; discriminate. Qed.
+
+(* normalize does return, on an expression that needs the four-way rule:  (a AND b) OR (c AND d)  to CNF *)
+Example normalize_returns :
+  normalize 10 true (WBin (WBin (Opaque 0%N) true (Opaque 1%N)) false (WBin (Opaque 2%N) true (Opaque 3%N)))
+  = Some (WBin (WBin (WBin (Opaque 0%N) false (Opaque 2%N)) true (WBin (Opaque 0%N) false (Opaque 3%N))) true
+               (WBin (WBin (Opaque 1%N) false (Opaque 2%N)) true (WBin (Opaque 1%N) false (Opaque 3%N)))).
+Proof. vm_compute. reflexivity. Qed.
+
+Example fromTree_toTree_example :
+  from_tree 10 false (LNot (LBin (LAtom 0%N) true (LParens (LBin (LNot (LAtom 1%N)) false (LAtom 2%N)))))
+  = Some [[LNot (LAtom 0%N)]; [LAtom 1%N; LNot (LAtom 2%N)]]
+  /\ to_tree false [[LNot (LAtom 0%N)]; [LAtom 1%N; LNot (LAtom 2%N)]]
+     = Some (LBin (LNot (LAtom 0%N)) false (LParens (LBin (LAtom 1%N) true (LNot (LAtom 2%N))))).
+Proof. vm_compute. split; reflexivity. Qed.
